@@ -316,7 +316,7 @@ class NotATree(Exception):
     pass
 
 
-def decision(fn, start=0, max_nodes=20000, leaf_of_block=None, result_place=None):
+def decision(fn, start=0, max_nodes=20000, leaf_of_block=None, result_place=None, leaf_of_call=None):
     """Unfold the CFG below `start` into a decision tree.
        nodes: ('switch', cond_expr, {value: subtree}, default_subtree, bb)
               ('leaf', label, bb)    label = what was last stored to the return place / diverging callee
@@ -357,6 +357,11 @@ def decision(fn, start=0, max_nodes=20000, leaf_of_block=None, result_place=None
         if k in ("goto", "drop", "assert"):
             return walk(t["t"], cur, onpath, lets)
         if k == "call":
+            if leaf_of_call:
+                # the rule names a call as the end of the walk and labels it in terms of what the path has bound so far
+                lab = leaf_of_call(b, t, lambda e_, _l=lets: subst_locals(e_, _l))
+                if lab is not None:
+                    return ("leaf", lab, b)
             if t["dest"]["l"] == 0 and place_is_local(t["dest"]):
                 c = callee_of(t)
                 cur = subst_locals(("call", c or "<indirect>", tuple(fn.expr(a, 20) for a in t["args"])), lets)
